@@ -204,6 +204,31 @@ CLAIMED = {
         technique="Lean 4 proof (det(1+UV)=det(1+VU) reductions, scalar HS identity) + exhaustive 2^n enumeration on the implementation",
         note=TB + " The Sherman-Morrison / rank-two Green's-function update is validated against from-scratch values, not proved; expm/erf/arccosh are library calls (HS constants monitored).",
     ),
+    "C04": dict(
+        category="proof",
+        text=("Lean theorems: (i) the new trial overlap cancels from importance factor x walker / new overlap (any field, any state space); (ii) the "
+              "completing-the-square identity behind h0_prop / mf_shifts / h1_mod in any algebra; (iii) the force-bias shift identity for real shifts "
+              "(translation invariance of the Gaussian integral; the complex contour shift is NOT proved - stated as _partial); (v) projection logic: a "
+              "non-positive |I| cos(theta) is zeroed, values in the window are kept (IEEE-like values, with C09). The O(dt^2) order clause is validated, "
+              "not proved: one real prop.propagate on a batch whose fields are the tensor Gauss-Hermite nodes, the field average of I x walker / overlap "
+              "vs expm(-dt(H - E_shift)) on the Fock space over a dt ladder (residual must shrink >= 3x per halving), restricted and unrestricted "
+              "propagators, rhf/uhf/ghf/noci trials, spin-dependent h1, arbitrary rdm1 for the shift; applied weight vs |I| max(0, cos theta)."),
+        design_ref="DESIGN.md §5/C04",
+        technique="Lean 4 proof (algebraic identities, real-shift Gaussian identity, decision logic) + Gauss-Hermite quadrature of the real propagate step against the Fock-space exponential",
+        note=TB + " Partial: the complex force-bias shift and the order in dt rest on the quadrature ladder (a test of the implementation against the exact operator exponential), not on a theorem. The importance factor is reconstructed from public quantities by the formula in the property.",
+    ),
+    "C05": dict(
+        category="proof",
+        text=("Lean theorems for every dimension and every number of steps: each minor of Q R is det R times the minor of Q; by induction over a list of "
+              "steps with arbitrary valid factorisations, accumulated norm x every occupation-string coefficient of the stored orthonormal walker equals "
+              "that of the un-normalised product of propagators, and the stored overlap is the overlap of the un-normalised state; scaling a block by c "
+              "multiplies minors by c^k; the per-spin constants exp(a/(2 N_s)) multiply to exp(a) when both spins are present. Tied to the code by "
+              "Gauss-Hermite averages of norms x walker (and of stored overlaps) vs expm(-dt(H - ene0)) over a dt ladder, 1-5 consecutive real steps vs "
+              "the un-normalised product, and the truncated exponential vs expm within its Taylor remainder."),
+        design_ref="DESIGN.md §5/C05",
+        technique="Lean 4 proof (induction over steps with an existential triangular factor) + Gauss-Hermite quadrature of the real propagate_free step",
+        note=TB + " Partial: the O(dt^2) order and the Taylor-remainder bound are validated on the implementation, not proved; qr is assumed to meet its specification (monitored in C13).",
+    ),
 }
 
 NOT_YET = {}
